@@ -90,6 +90,9 @@ func C06(c *core.Ctx) {
 		c.Infra("MC_SortModel_hazard: expected Deterministic to be violated by the comparator without tie-break, got %q", r.Violated)
 	}
 	c.MC("MC_Prices", c.TierCfg("MC_Prices"), 16, 30*time.Minute) // Deterministic for the price normalisation
+	for id := 1; id <= c.Pick(2, 6); id++ {                       // the report does not depend on the stage interleaving
+		c.MC("Knut", fmt.Sprintf("MC_Knut_%d.cfg", id), 4, 10*time.Minute)
+	}
 	bin := c.Knut("verif")
 	root := filepath.Join(c.Work, "c06")
 	os.MkdirAll(root, 0o755)
